@@ -269,6 +269,44 @@ def main():
             sized_cases.append("(%s, %s)" % (c_grp("", spec), clist(observed_sized, lambda o: "(%s, %s)" % (
                 ctext(o[0]), clist(o[1], lambda dn: "(%s, %d%%nat)" % (ctext(dn[0]), dn[1]))))))
 
+        # ------------------------------------------------------------ NetCDF corpus: Byte variables (padded to 4 bytes ONCE, at the
+        # end of the values) and strided reads served in blocks of a few bytes
+        try:
+            import netCDF4
+            cpath = os.path.join(tmp, "corpus.nc")
+            cvals = {"b": (np.arange(7, dtype="u1") * 37 + 1), "m": (np.arange(15, dtype="u1") + 200).reshape(3, 5),
+                     "w": np.arange(6, dtype="i2").reshape(2, 3) - 2, "t": np.arange(4, dtype="f8") * 0.5}
+            with netCDF4.Dataset(cpath, "w") as ncd:
+                for dn, n_ in (("d7", 7), ("d3", 3), ("d5", 5), ("d2", 2), ("d4", 4)):
+                    ncd.createDimension(dn, n_)
+                for vn, dims_ in (("b", ("d7",)), ("m", ("d3", "d5")), ("w", ("d2", "d3")), ("t", ("d4",))):
+                    vv = ncd.createVariable(vn, cvals[vn].dtype.str[1:], dims_)
+                    vv.set_auto_maskandscale(False)
+                    vv[...] = cvals[vn]
+            hc = NetCDFHandler(cpath)
+            for ce_, pick in (("b,t", None), ("b", None), ("m,w", None), ("b[1:2:6],t", ("b", (slice(1, 7, 2),))),
+                              ("m[0:1:2][1:1:3],w", ("m", (slice(0, 3), slice(1, 4))))):
+                for bs_ in (None, 1, 3, 5, 8):
+                    def app_c(environ, start_response, bs_=bs_):
+                        if bs_ is not None:
+                            environ["pydap.buffer_size"] = bs_
+                        return hc(environ, start_response)
+                    r.count(("nc-corpus", ce_, bs_))
+                    stats["hyperslabs"] += 1
+                    try:
+                        res = open_dods_url("http://localhost:8001/c.dods?" + ce_, application=app_c)
+                        for vn in [x.split("[")[0] for x in ce_.split(",")]:
+                            want = cvals[vn][pick[1]] if pick and pick[0] == vn else cvals[vn]
+                            got = np.asarray(res[vn].data)
+                            if got.shape != want.shape or not np.array_equal(got.astype("f8"), want.astype("f8")):
+                                direct.append({"law": "served values equal the file's raw values, whatever the block size of the response",
+                                               "request": ce_, "buffer_size": bs_, "variable": vn, "got": got.tolist(), "want": want.tolist()})
+                    except Exception as e:  # noqa
+                        direct.append({"law": "a request on the corpus file is answered, whatever the block size of the response",
+                                       "request": ce_, "buffer_size": bs_, "error": repr(e)[:200]})
+        except Exception as e:  # noqa
+            direct.append({"law": "the corpus NetCDF file can be written and opened", "error": repr(e)[:300]})
+
         # ------------------------------------------------------------ CSV
         for i in range(25 if T == "quick" else 300):
             ncols = rng.randint(1, 4)
